@@ -15,7 +15,8 @@ import (
 
 // C20 — hashed file-tree paths keep the parent/child relation; a trailing slash is neutral.
 
-var c20Sigma = []string{"", "a", "b", "ab", "é", " ", "s", "home", ".", "..", strings.Repeat("x", 300)}
+// "\u00e9" and "e\u0301" render alike but are different byte strings: different folder names
+var c20Sigma = []string{"", "a", "b", "ab", "\u00e9", "e\u0301", " ", "s", "home", ".", "..", strings.Repeat("x", 300)}
 
 func c20Canon(segs []string) []string {
 	if len(segs) > 1 && segs[len(segs)-1] == "" {
@@ -118,7 +119,7 @@ func c20Enum(thorough bool) mc.Enum {
 		return cr
 	}})
 	// the real chain: provision a root, post a chain of folders, compare the returned Path with the plain-path hash
-	chainSigma := []string{"a", "b", "é", " ", "home"}
+	chainSigma := []string{"a", "b", "\u00e9", "e\u0301", " ", "home"}
 	for _, c1 := range chainSigma {
 		for _, c2 := range chainSigma {
 			c1, c2 := c1, c2
@@ -173,7 +174,7 @@ func c20Chain(env world.Env, c1, c2 string, sigma []string) mc.CaseResult {
 func init() {
 	CaseReplayers["C20/paths"] = func(r *mc.Run, c string) { r.ReplayCase(c20Enum(strings.Contains(c, "maxlen=5")), c) }
 	Props["C20"] = Prop{Level: "exploration", Run: func(r *mc.Run, tier string) {
-		r.Rules = append(r.Rules, "every segment sequence of length 1..4 (thorough: 5) over {\"\",a,b,ab,é,space,s,home,300-byte}: MerklePath vs an independent fold, trailing-slash neutrality, child = AddToMerkle(parent, sha256(child)), pairwise-distinct addresses; plus 125 folder chains of depth 3 posted through the real ProvisionFileTree/PostFile handlers. Non-trivial = sequences with >= 2 segments / posts")
+		r.Rules = append(r.Rules, "every segment sequence of length 1..4 (thorough: 5) over {\"\",a,b,ab,é (precomposed),é (e + combining accent),space,s,home,.,..,300-byte}: MerklePath vs an independent fold, trailing-slash neutrality, child = AddToMerkle(parent, sha256(child)), pairwise-distinct addresses; plus 216 folder chains of depth 3 posted through the real ProvisionFileTree/PostFile handlers. Non-trivial = sequences with >= 2 segments / posts")
 		r.Assumptions = append(r.Assumptions, "SHA-256 collision freedom", "parents ending in '/' and empty or '/'-containing last segments are unspecified (the statement's clauses conflict there)")
 		r.AddEnum(c20Enum(tier == "thorough"), workers(), time.Time{})
 	}}
